@@ -144,7 +144,7 @@ def jobs(tier):
                 h = h.replace('vf_exc.pending = 0;', 'vf_exc.pending = 0; vf_exc.obj = 0;' + (' g_s = S_NONE; g_nctor = g_nsucc = g_ndtor = 0; g_os = &os;' if st else ''))
                 if st:
                     h = h.replace('int main(void)\n{', 'int main(void)\n{\n  struct $REC{vf::OS} os;')
-                j = Job(rname(op, a, m, tr), 'state_e' if tr == 'eager' else 'state_l', rname(op, a, m, tr), con, ('C13', 'C02') + (('C11',) if op in TR else ()),
+                j = Job(rname(op, a, m, tr), 'state_e' if tr == 'eager' else 'state_l', rname(op, a, m, tr), con, ('C13', 'C02', 'C04') + (('C11',) if op in TR else ()),
                         stubs=stubs, prelude=comb_prelude(tr) + PRE, harness=h, expect_fail_canary=('canary_exit',),
                         desc=(expr % (a, m)) + ' on memory_input<%s>' % tr)
                 out.append(j)
